@@ -2,8 +2,11 @@
 
 Tie: the four real subscription-manager classes (sync/async x path/reference-parameter dispatch) are driven through
 `_EventService.on_post` (dpwshostedservice.py) with real SOAP messages built the way the consumer builds them, the
-real `SoapClientPool` with a fake soap-client factory (records every posted message, produces the delivery outcome
-chosen by the generator), a virtual clock patched into `subscriptionmgr_base.time`, house-keeping run on demand.
+real `SoapClientPool` and the real `SoapClient` / `SoapClientAsync` classes; only the http layer below them is replaced
+(`FakeConn` / `FakeSession`: connect refused / timed out, connection reset, HTTP 500 + fault, HTTP 200 + non-xml body, ok),
+so which exception a failure becomes and whether a client ever reconnects is decided by the real client code. Every
+hand-over to a soap client and every event on the fake wire is recorded. Virtual clock patched into
+`subscriptionmgr_base.time`, house-keeping run on demand. The outcome observed per delivery is environment input of the model.
 The same op list goes to the Lean model driver (`drv_c08`); canonical answers are diffed op by op.
 Oracle: `Monitor` — a subscriber-side reference of subscription liveness written from the property text, evaluated on
 the transport log / responses of the implementation after every op (independent of the Lean model).
@@ -40,7 +43,9 @@ MANIFEST = dict(
          'the real managers on generated and directed op sequences on every run; the Python monitor is the run-time oracle and its '
          'alive/known view is compared with the Lean monitor of the theorems after every op.',
     note='Known (not repaired): Expires=PT0S is granted the maximum; filter entries match by suffix. Repaired: sync manager '
-         'delivered after Unsubscribe; Renew/GetStatus/Unsubscribe were answered for an unsubscribed subscription. '
+         'delivered after Unsubscribe; Renew/GetStatus/Unsubscribe were answered for an unsubscribed subscription; a non-xml answer of '
+         'one subscriber aborted the report distribution of the sync managers. The outcome of each delivery (incl. the state of the '
+         'pooled soap client) is an input of the model: theorems hold for every outcome assignment; pool behaviour is checked by the oracle. '
          'Trusted: harness (fake transport, virtual clock on a 10 ms raster), asyncio loop, lxml; thread interleavings of '
          'house-keeping vs. requests are not modelled (ops are atomic).',
     ref='5 C08')
@@ -49,13 +54,14 @@ RULE = ('one case = manager class x max duration x failure limit x op list (subs
         'unknown, wrong-slot identifiers, notify, tick to/around expiry and grace boundaries, delivery outcome changes, '
         'house-keeping, stop); distinct by SHA-1 of the canonical case; non-trivial = at least one notification delivered '
         'and at least one notification withheld from an accepted subscription')
-TRUSTED = ['fake soap client / real SoapClientPool wiring, virtual clock (monotonic float on a 10 ms raster, time.time as Fraction)',
+TRUSTED = ['fake http layer (FakeConn/FakeSession) under the real soap clients and pool, virtual clock (monotonic float on a 10 ms raster, time.time as Fraction)',
            'lxml + message factory/reader used to build requests and to decode posted messages',
            'asyncio event loop (run_until_complete per op) for the async managers',
            'ops are atomic: no interleaving of the house-keeping thread with a request inside one handler']
 ASSUMPTIONS = ['all durations and clock advances are multiples of 10 ms (remaining_seconds rounds to 2 digits)',
                'notified actions carry no surrounding white space (matches() strips it)',
-               'delivery outcomes: ok, HTTPReturnCodeError, ConnectionRefusedError, http.client.NotConnected, TimeoutError']
+               'subscriber / network behaviours: ok, HTTP 500 with soap fault, HTTP 200 with a non-xml body, connection refused, connect time-out, '
+               'established connections reset (subscriber restarted); the wire-level clause not-sent-on-fresh-connection is evaluated until the first stop']
 
 NS = 'urn:verif'
 OTHER_DIALECT = 'urn:verif:other-dialect'
@@ -105,6 +111,7 @@ def lib():
         L.fault_body = L.mf.mk_soap_message(HeaderInformationBlock(action=fault.action, addr_to='http://verif/anonymous'),
                                             fault).serialize(validate=False)
         log = loghelper.get_logger_adapter('sdc.verif.soapclient', 'verif')
+        L.mr_client = MessageReader(SdcV1Definitions, None, logger=log, validate=False)   # the soap clients' reader (logs parse errors)
 
         def outcome_of(ex):
             """canonical name of what the soap client did with a message (decided by the real client code)"""
@@ -126,7 +133,7 @@ def lib():
             """the real synchronous SoapClient; only the http connection underneath is replaced (FakeConn)"""
 
             def __init__(self, env, netloc, encodings):
-                super().__init__(netloc, 1.0, log, None, SdcV1Definitions, L.mr, request_encodings=encodings)
+                super().__init__(netloc, 1.0, log, None, SdcV1Definitions, L.mr_client, request_encodings=encodings)
                 self.env = env
 
             def _mk_http_connection(self):
@@ -148,7 +155,7 @@ def lib():
             """the real SoapClientAsync; the aiohttp session underneath is replaced (FakeSession)"""
 
             def __init__(self, env, netloc, encodings):
-                super().__init__(netloc, 1.0, log, None, SdcV1Definitions, L.mr, request_encodings=encodings)
+                super().__init__(netloc, 1.0, log, None, SdcV1Definitions, L.mr_client, request_encodings=encodings)
                 self.env = env
 
             async def _mk_http_connection(self):
@@ -926,6 +933,26 @@ def directed_cases():
         mk('suffix-filter', [['sub', 0, None, ['x' + a0], True, 500, True], ['notify', a0]])
         mk('shared-address', [['sub', 0, 0, [a0], True, 500, True], ['sub', 0, 0, [a0, a1], True, 300, False], ['notify', a0], ['tick', 300],
                               ['notify', a0], ['mode', 0, 'httpError'], ['notify', a1], ['notify', a0], ['stop', True]])
+        for o in OUTCOMES[1:]:
+            for pos in range(3):
+                # one of three subscribers fails in this way exactly when its SubscriptionEnd is posted (every table position)
+                target = [1, 2, 5][pos]
+                mk(f'end-{o}-{pos}', [['sub', 0, 1, [a0], True, 500, True], ['sub', 2, None, [a0], True, 500, True],
+                                      ['sub', 4, 5, [a0], True, 500, False], ['notify', a0], ['mode', target, o], ['stop', True]])
+                # ... and when a report is posted
+                mk(f'notify-{o}-{pos}', [['sub', 0, None, [a0], True, 500, True], ['sub', 2, None, [a0], True, 500, True],
+                                         ['sub', 4, None, [a0], True, 500, True], ['notify', a0], ['mode', [0, 2, 4][pos], o],
+                                         ['notify', a0], ['mode', [0, 2, 4][pos], 'ok'], ['notify', a0], ['hk'], ['notify', a0]])
+        for o in ('reset', 'refused', 'timeout', 'garbage', 'httpError'):
+            for again in (0, 1):      # the subscriber comes back on the same address / on the same host
+                # session 1 fails, is removed, the subscriber subscribes again: the new subscription must be served
+                mk(f'resubscribe-after-{o}-{again}', [['sub', 0, None, [a0], True, 1000, True], ['notify', a0], ['mode', 0, o], ['notify', a0],
+                                                      ['hk'], ['mode', 0, 'ok'], ['sub', again, None, [a0], True, 1000, True], ['notify', a0],
+                                                      ['notify', a0], ['status', *k(1)]])
+                # the same without house-keeping in between
+                mk(f'resubscribe-early-{o}-{again}', [['sub', 0, None, [a0], True, 1000, True], ['notify', a0], ['mode', 0, o], ['notify', a0],
+                                                      ['mode', 0, 'ok'], ['sub', again, None, [a0], True, 1000, True], ['hk'], ['notify', a0],
+                                                      ['notify', a0]])
         mk('grace-boundary', [['sub', 0, None, [a0], True, 1000, True], ['unsub', *k(0)], ['tick', 100], ['hk'], ['tick', 1], ['hk'],
                               ['sub', 0, None, [a0], True, 1000, True], ['status', *k(1)], ['notify', a0]])
     return res
